@@ -142,7 +142,7 @@ pub fn gen_reason(ctx: &mut Ctx) -> Vec<u8> {
 pub fn gen_status(ctx: &mut Ctx) -> u16 {
     match ctx.draw(10) {
         0 => ctx.range(101, 199) as u16,
-        1 | 2 => *ctx.pick(&[200u16, 201, 204, 206, 299]),
+        1 | 2 => *ctx.pick(&[200u16, 201, 204, 205, 206, 299]),
         3 | 4 => *ctx.pick(&[300u16, 301, 302, 303, 304, 305, 307, 308, 399]),
         5 => ctx.range(400, 599) as u16,
         6 => ctx.range(600, 999) as u16,
@@ -180,6 +180,8 @@ pub struct Coding {
     pub chunks: Vec<ChunkSpan>,
     /// grammar class of every coding byte (see `gc`)
     pub class: Vec<u8>,
+    /// the bytes are only the beginning of a coding whose (huge) chunk never completes
+    pub incomplete: bool,
 }
 
 /// grammar classes for coverage and structural cuts
@@ -207,6 +209,8 @@ pub struct CodingOpts {
     pub ext: bool,
     pub trailers: usize,
     pub payload_seed: u64,
+    /// pad every size line to exactly 20 bytes (the decoder's limit) with leading zeros
+    pub exact20: bool,
 }
 
 fn push(c: &mut Coding, bytes: &[u8], class: u8) {
@@ -223,7 +227,8 @@ pub fn encode_chunked(o: &CodingOpts) -> Coding {
     let mut ppos = 0u64;
     for (k, &sz) in o.sizes.iter().enumerate() {
         let hex = if o.upper { format!("{:X}", sz) } else { format!("{:x}", sz) };
-        let zeros = o.leading_zeros.min(20usize.saturating_sub(hex.len() + if o.ext { 4 } else { 0 }));
+        let ext_len = if o.ext && k % 2 == 0 { 4 } else { 0 };
+        let zeros = if o.exact20 { 20usize.saturating_sub(hex.len() + ext_len) } else { o.leading_zeros.min(20usize.saturating_sub(hex.len() + if o.ext { 4 } else { 0 })) };
         let mut line = "0".repeat(zeros);
         line.push_str(&hex);
         push(&mut c, line.as_bytes(), gc::SIZE);
@@ -242,7 +247,13 @@ pub fn encode_chunked(o: &CodingOpts) -> Coding {
         push(&mut c, b"\r", gc::DATA_CR);
         push(&mut c, b"\n", gc::DATA_LF);
     }
-    let last = if o.leading_zeros > 0 { "000" } else { "0" };
+    let last = if o.exact20 {
+        if o.ext { "000000000000000" } else { "00000000000000000000" }
+    } else if o.leading_zeros > 0 {
+        ["00", "000", "00000000"][o.leading_zeros % 3]
+    } else {
+        "0"
+    };
     push(&mut c, last.as_bytes(), gc::LAST_SIZE);
     if o.ext {
         push(&mut c, b";last", gc::EXT);
@@ -279,8 +290,29 @@ pub fn gen_coding(ctx: &mut Ctx) -> Coding {
         ext: ctx.chance(1, 3),
         trailers: if ctx.chance(1, 3) { ctx.range(1, 2) } else { 0 },
         payload_seed: ctx.draw(1 << 32),
+        exact20: ctx.chance(1, 8),
     };
     encode_chunked(&o)
+}
+
+/// The beginning of a coding whose single chunk is declared with 2^32 bytes or more; only the
+/// first few thousand data bytes ever arrive.
+pub fn gen_huge_chunk_prefix(ctx: &mut Ctx) -> Coding {
+    let mut c = Coding::default();
+    let declared: u64 = (1u64 << 32) + if ctx.flip() { 0 } else { ctx.draw(1 << 20) } + if ctx.chance(1, 4) { 1u64 << 40 } else { 0 };
+    let line = if ctx.flip() { format!("{:x}", declared) } else { format!("{:X}", declared) };
+    push(&mut c, line.as_bytes(), gc::SIZE);
+    push(&mut c, b"\r", gc::SIZE_CR);
+    push(&mut c, b"\n", gc::SIZE_LF);
+    let n = ctx.range(1, 3000);
+    let seed = ctx.draw(1 << 32);
+    let data = crate::drive::body_bytes(seed, 0, n);
+    let data_at = c.bytes.len();
+    push(&mut c, &data, gc::DATA);
+    c.chunks.push(ChunkSpan { data_at, len: n, payload_at: 0 });
+    c.payload = data;
+    c.incomplete = true;
+    c
 }
 
 // --------------------------------------------------------------------------- arrival schedules
